@@ -12,6 +12,7 @@ import (
 	"io"
 	"net/http"
 	"net/http/httptest"
+	"net/netip"
 	"os"
 	"runtime/debug"
 	"sort"
@@ -326,6 +327,18 @@ func vfC06DrawTable(t *rapid.T) (tab []vfC06Entry, pool, heads []string) {
 	for i := range g.tab {
 		if rapid.IntRange(0, 19).Draw(t, g.lbl("upper")) == 0 {
 			g.tab[i].Domain = strings.ToUpper(g.tab[i].Domain)
+		}
+	}
+	// ... and so are the host names in answers (an address or an exception
+	// mark is left alone).
+	for i := range g.tab {
+		a := g.tab[i].Answer
+		if _, perr := netip.ParseAddr(a); perr == nil || a == "A" || a == "AAAA" {
+			continue
+		}
+		if rapid.IntRange(0, 9).Draw(t, g.lbl("upper_answer")) == 0 {
+			g.tab[i].Answer = strings.ToUpper(a[:1]) + a[1:]
+			vfC06.Class("table:cname_answer_with_upper_case")
 		}
 	}
 
